@@ -528,6 +528,9 @@ def gen_field(rng, schema, f, depth):
     """a value for field f, or None = leave the field out of the constructor call"""
     if f.ty == "map":
         n = rng.choice([0, 1, 1, 2, 3])
+        if f.mapV == "message" and f.mapVKind.startswith("u") and depth <= 0:
+            n = 0           # the nesting bound also holds through map values (a self-referencing map is a supercritical
+                            # branching process otherwise: values nested > 100 deep, which the reference decoder refuses)
         items, seen = [], set()
         for _ in range(n):
             k = gen_scalar(rng, f.mapK)
@@ -578,9 +581,12 @@ def gen_msg(rng, schema, ci, depth=3, multi=0.0):
     return ("c", ci, kw)
 
 
+ALL_FEATURES = frozenset({"scalar", "repeated", "optional", "oneof", "message", "map", "wkt", "wrapper", "repwrapper", "recursive"})
+
+
 def random_schema(rng, nmsgs=None, features=None):
     """a random well-formed schema; `features` limits the field kinds"""
-    feats = features or {"scalar", "repeated", "optional", "oneof", "message", "map", "wkt", "wrapper", "recursive"}
+    feats = features or ALL_FEATURES
     nmsgs = nmsgs or rng.choice([1, 1, 2, 3])
     schema = []
     for ci in range(nmsgs):
@@ -646,7 +652,10 @@ def random_schema(rng, nmsgs=None, features=None):
                     if not f.repeated and "optional" in feats and rng.random() < 0.25:
                         f.optional = True
                 elif "wrapper" in feats:
-                    f = F(name, num, "message", wraps=rng.choice(WRAP_T), repeated=False)
+                    # `repeated google.protobuf.XxxValue` = List[Optional[scalar]]; items are never None here (a repeated
+                    # message field of the reference cannot hold a null element): None items are a stage of their own in C01
+                    f = F(name, num, "message", wraps=rng.choice(WRAP_T),
+                          repeated="repwrapper" in feats and "repeated" in feats and rng.random() < 0.35)
                 else:
                     f = F(name, num, rng.choice(SCALAR_T))
             fields.append(f)
